@@ -43,6 +43,8 @@ type Engine struct {
 	restVals             map[string]Value
 	entries              map[string]*EntryInfo
 	ghostSorts           map[string]string
+	auxGhost             map[string]bool
+	witnessCache         map[string]*witnessResult
 	refPayload           map[*Term]IfaceV
 	symByRef             map[*Term]*SymIface
 	refFactsBy           map[string][]*Term
@@ -86,6 +88,7 @@ func newEngine() *Engine {
 		restVals:   map[string]Value{},
 		entries:    map[string]*EntryInfo{},
 		ghostSorts: map[string]string{},
+		auxGhost:   map[string]bool{},
 		propAll:    map[string]bool{},
 		refPayload: map[*Term]IfaceV{},
 		symByRef:   map[*Term]*SymIface{},
